@@ -382,6 +382,21 @@ RecvFilters(p, m) ==
                                  /\ \A j \in 1..Len(rec[3]) : rec[3][j][2] = (rec[3][j][1] = s.proved)
                        /\ UNCHANGED scripts
                        /\ mmem' = IF mmem = {} THEN RecBlocks(mdb'[1]) ELSE mmem
+                    \* a record with the same start number is already in the store (the process died between the
+                    \* record's put and the progress put, and the batch is processed again): the put replaces it
+                    \/ /\ Len(mdb') = Len(mdb)
+                       /\ \E at \in 1..Len(mdb) :
+                            LET rec == mdb'[at] IN
+                            /\ mdb[at][1] = m.start
+                            /\ rec[1] = m.start /\ rec[2] = limit
+                            /\ \A i \in 1..Len(mdb) : i # at => mdb'[i] = mdb[i]
+                            /\ \E pos \in SUBSET (1..limit) :
+                                 /\ must \subseteq pos /\ pos # {}
+                                 /\ Len(rec[3]) = Cardinality(pos)
+                                 /\ {rec[3][j][1] : j \in 1..Len(rec[3])} = {m.hs[i] : i \in pos}
+                                 /\ \A j \in 1..Len(rec[3]) : rec[3][j][2] = (rec[3][j][1] = s.proved)
+                       /\ UNCHANGED scripts
+                       /\ mmem' = IF mmem = {} THEN RecBlocks(mdb'[1]) ELSE mmem
     \* (history variables last: they are functions of the new state)
     \* a script whose number is raised (or confirmed: number <= the new filtered number while nothing is
     \* pending) by update_block_number no longer over-claims
@@ -717,10 +732,15 @@ Tainted == \/ "KF-C06-blockhash" \in cfg.allow /\ \E x \in subst : x >= -1 /\ x 
            \/ "KF-C04-spanning-record" \in cfg.allow /\ \E x \in subst : x <= -2
 
 \* the blocks of the abandoned branch that stay in kept matched-block records when the tip changes branch
+\* ... and the marker 0 - ForeignBase when the RANGE of a kept record reaches beyond the fork block (even if the
+\* matched blocks themselves are common ancestors): when its blocks arrive the scripts are raised to the end of
+\* the range, over blocks of the new branch that have not been filtered
 SpanKept ==
-    IF tip' = tip THEN {}
+    IF tip' = tip \/ IsAnc(world, tip, tip') THEN {}
     ELSE {0 - b - 1 : b \in {x \in UNION {{mdb'[i][3][j][1] : j \in 1..Len(mdb'[i][3])} : i \in 1..Len(mdb')} :
                             x >= 1 /\ ~IsAnc(world, x, tip')}}
+         \cup (IF \E i \in 1..Len(mdb') : mdb'[i][1] + mdb'[i][2] - 1 > Num(world, CommonAnc(world, tip, tip'))
+               THEN {0 - ForeignBase} ELSE {})
 
 Quiet == mdb = <<>> /\ mmem = {} /\ minF = Num(world, tip) /\ \A e \in scripts : e[2] = minF
 =============================================================================
